@@ -29,7 +29,7 @@ func vmCfg(tier string) interp.Config {
 
 var numgenBounds = func(tier string) map[string]any {
 	if tier == "thorough" {
-		return map[string]any{"numscript_programs": "NumGen thorough: sources of depth<=2 with <=3 leaves (plain/bounded/unbounded overdraft/world; at most one special leaf), set partitions of accounts, 16 destination forms — one source x destination combination in six (fixed stride; the full product is 11.5k programs and does not finish within an hour) —, send-all, allotment sources, two- and three-statement programs: about 2100 programs", "integers": "unbounded (SMT Int)", "portions": "concrete"}
+		return map[string]any{"numscript_programs": "NumGen thorough: every program of the quick tier, plus sources of exactly 3 leaves (depth<=2; plain/bounded/unbounded overdraft/world; at most one special leaf; set partitions of accounts) met with the 16 destination forms and send-all — one combination in sixteen, a fixed stride (the full product is about 11k programs and does not finish within an hour): about 1200 programs", "integers": "unbounded (SMT Int)", "portions": "concrete"}
 	}
 	return map[string]any{"numscript_programs": "NumGen quick: sources of depth<=2 with <=2 leaves (plain/bounded/unbounded overdraft/world; at most one special leaf), set partitions of accounts, 4-14 destination forms, send-all, allotment sources over 6 sub-sources, two-statement programs", "integers": "unbounded (SMT Int)", "portions": "concrete"}
 }
